@@ -138,7 +138,7 @@ def apply_tiff_predictor(
         raise PDFValueError(error_msg)
     bpp = colors * (bitspercomponent // 8)
     nbytes = columns * bpp
-    if nbytes <= 0:
+    if bpp <= 0 or columns <= 0:
         raise PDFValueError(f"Unsupported geometry: {colors} x {columns}")
     buf: List[int] = []
     for scanline_i in range(0, len(data), nbytes):
